@@ -136,6 +136,21 @@ func VerifCheck_history() {
 			if err == ErrBacktrackingStackLimit {
 				verifReach("history-hit-own-limit")
 			}
+		case h == "r17":
+			// more distinct replacement patterns than the per-Regexp cache holds (16): the first ones are
+			// evicted, among them the two the final calls use
+			for k := 0; k < 18; k++ {
+				rep := "<$1|$&>"
+				if k == 1 {
+					rep = "[$&$1]"
+				} else if k > 1 {
+					rep = "{" + strconv.Itoa(k) + "$&$1}"
+				}
+				if _, err := verifHA.Replace("ab", rep, -1, -1); err != nil {
+					verifFail("error-history", err.Error())
+				}
+			}
+			verifReach("history-cache-overflow")
 		case h == "lim":
 			_, err := verifHL.MatchString("ababababababababababababababababc")
 			if err == ErrBacktrackingStackLimit {
